@@ -9,9 +9,13 @@ case = {"paras": [{"fields":   [[name, [first, [cont, ...]]], ...],
                                                             front of the armor header line
                    "refused":  [{"at": k, "key": "new"|"existing"|"later", "index": i,
                                  "kind": "trailing-newline"|"empty-line"|"unindented-continuation",
-                                 "via": "setitem"|"update"}, ...]}, ...],
+                                 "via": "setitem"|"update"}, ...],
                                                      (optional) assignments that must be refused, attempted
                                                      after k (mod fields + 1) fields have been assigned
+                   "dumps":    [{"encoding": null | codec, "text_mode": bool, "fail_at": null | k}, ...]}, ...],
+                                                     (optional) calls dump(fd[, encoding=codec][, text_mode=True])
+                                                     made on the finished paragraph before it is used; fd refuses
+                                                     its k-th write() with OSError if fail_at is a number
         "layout": {"lead": n,               blank lines before the first paragraph
                    "lead_free": [text...],  free-standing comment block + blank line at the very start
                    "seps": [{"blank": n>=1, "free": [text...], "blank2": n>=1}, ...],
@@ -35,6 +39,15 @@ assign values that ``Deb822`` refuses (a value ending in a newline, holding an e
 a second line that does not start with a blank - to a name the paragraph never gets, to a field
 assigned before, to a field assigned afterwards), catches the ``ValueError`` and carries on: that
 object must hold and dump exactly what the first one does, and it is the one used from then on.
+
+If the case lists dumps with parameters, the finished paragraph is first dumped that way, call by
+call, into a collecting file object: ``dump(fd, encoding=codec)`` (binary; codecs without a byte
+order mark) or ``dump(fd, text_mode=True)``, into an fd that takes everything or one whose k-th
+``write()`` raises OSError.  A call that returns must have written the text of ``dump()`` in that
+codec; a call may raise UnicodeEncodeError only when the codec cannot express the text (documented
+in ``dump``), and the fd's own OSError comes back to the caller, who catches either and carries on.
+After these calls - as after every other step - the paragraph must dump the same text in every way
+it offers: ``dump()``, ``str(p)``, ``dump(fd, text_mode=True)``, and in UTF-8 ``dump(fd)`` and ``bytes(p)``.
 
 Two documents are assembled from the dumps: the *plain* one (dumps joined by one empty line) and the *full* one
 (the case's layout, comment lines and clearsign armor all applied).  Each document is presented
@@ -77,7 +90,13 @@ RULE = ("a case is a document of 1..4 paragraphs x 1..5 fields (Policy-valid nam
         "assignments that must be refused (value ending in a newline / with an empty line / with an unindented "
         "second line, for a name never assigned, assigned before or assigned afterwards, by d[k] = v or "
         "d.update) attempted while the paragraph is built, the ValueError caught and the object used as if "
-        "nothing had happened, leading/trailing/multiple blank lines (in half of the cases some of "
+        "nothing had happened, in a third of the paragraphs 1..3 calls dump(fd, encoding=ascii / ISO-8859-1 / -15 / "
+        "cp1252 / UTF-8 / UTF-16-LE / -BE / UTF-32-BE / not given) or dump(fd, text_mode=True), one in three into an "
+        "fd whose first, second or third write() raises OSError, made before the paragraph is used (a call that "
+        "returns must have written dump() in that codec; UnicodeEncodeError only if the codec cannot express the "
+        "text; either error is caught and the object used as if nothing had happened), every paragraph then "
+        "dumped by dump(), str(), bytes(), dump(fd) and dump(fd, text_mode=True) - also after a field has been "
+        "deleted - which must all give one text, leading/trailing/multiple blank lines (in half of the cases some of "
         "them hold SPACE/TAB), final newline or not; "
         "each case is read plain and fully configured in 8 input forms (str, bytes, list of lines with "
         "and without newline, list of bytes lines, StringIO, BytesIO, TextIOWrapper) by iter_paragraphs "
@@ -90,7 +109,9 @@ RULE = ("a case is a document of 1..4 paragraphs x 1..5 fields (Policy-valid nam
         "and armored; every legal field-name character in first and later position; every gap layout of "
         "0..2 leading and 1..3 separating lines from {empty, SPACE, TAB}, plain and clearsigned; 357 boundary values "
         "in clearsigned, fully commented paragraphs with CR LF (or alternating CR LF / LF) terminators; 72 placements "
-        "of one refused assignment in a three-field paragraph; big documents "
+        "of one refused assignment in a three-field paragraph; 270 single dumps with parameters (5 value classes "
+        "x 9 encodings x binary/text x fd sound / failing at once / failing at the third write) and 162 ordered "
+        "pairs of them, with a second paragraph built afterwards; big documents "
         "(140 KiB - 1 MiB) whose line ends, separator lines, line middles or character middles lie on every "
         "multiple of 4096 / 1024 (thorough: also 1000, 5000, 8192) bytes or characters, read in all forms "
         "including real files and a UTF-16 text file. "
@@ -123,6 +144,13 @@ ASSUMPTIONS = [
     "refused assignments: only the error path is used here - an attempt that raises ValueError must leave no "
     "trace in keys(), items() and dump(); that the ValueError is raised at all is property C08's claim, a case "
     "in which an attempt is accepted is labelled 'unrefused-attempt-not-judged' and the object dropped",
+    "dumps with parameters: the paragraphs are made by Deb822(), whose own encoding is UTF-8 (documented "
+    "default), so dump(fd) and bytes(p) must give dump().encode('utf-8'); the expected bytes of dump(fd, "
+    "encoding=c) are dump().encode(c) computed by Python's codec, and whether c 'can support all the "
+    "characters' is whether that raises; only codecs without a byte order mark are used (observed on the "
+    "unchanged tree: dump(fd, encoding='utf-16') encodes field by field and so writes a BOM in front of every "
+    "field - not asserted, the library cannot read UTF-16 bytes back either); what a refused or interrupted "
+    "call has written to its fd before the error is not judged",
     "a file object from which k lines have been taken with readline() stands at line k (io module semantics); "
     "the reader is expected to go on from there",
     "the geometry of the big documents (which offset a line end falls on) is computed assuming that dump() "
@@ -141,13 +169,17 @@ _EXH_EOL = ("21 boundary first lines x every sequence of 0..1 continuation lines
             "comment line at every line boundary and in front of the armor header line (714 documents)")
 _EXH_REFUSED = ("one refused assignment at each of the 4 places of a three-field paragraph x 3 kinds of spoilt value x "
                 "key never assigned / assigned before / assigned afterwards x d[k] = v / d.update (72 cases)")
+_EXH_DUMPS = ("a three-field paragraph whose multi-line middle value is pure ASCII / needs ISO-8859-1 / needs "
+              "ISO-8859-15 or cp1252 / a 3-byte / a 4-byte UTF-8 character x one dump(fd) with each of 8 codecs or none x "
+              "binary / text_mode x fd sound / refusing the first / the third write (270); for the second and third "
+              "value every ordered pair of such binary dumps (162), a second paragraph built and dumped afterwards")
 _EXH_BIG = ("documents of 36 paragraphs x 4096 and of 140 paragraphs x 1024 bytes (or characters) in which every "
             "multiple of that unit lies at one of 8 chosen places of a paragraph (behind the separator line, behind "
             "the first field, behind the first line of a multi-line value, between and behind continuation lines, "
             "behind the last field, inside a line, inside a 4-byte character): 30 documents of 140-144 KiB")
 _EXH_BIG_T = _EXH_BIG + "; the same for units of 1000 and 5000 (140-150 KiB) and 8192 (1 MiB): 75 documents"
-EXHAUSTIVE = {"quick": "; ".join([_EXH, _EXH_GAPS, _EXH_EOL, _EXH_REFUSED, _EXH_BIG]),
-              "thorough": "; ".join([_EXH, _EXH_GAPS, _EXH_EOL, _EXH_REFUSED, _EXH_BIG_T])}
+EXHAUSTIVE = {"quick": "; ".join([_EXH, _EXH_GAPS, _EXH_EOL, _EXH_REFUSED, _EXH_DUMPS, _EXH_BIG]),
+              "thorough": "; ".join([_EXH, _EXH_GAPS, _EXH_EOL, _EXH_REFUSED, _EXH_DUMPS, _EXH_BIG_T])}
 BUDGET = {"quick": 200, "thorough": 1500}
 
 BEGIN_MSG = "-----BEGIN PGP SIGNED MESSAGE-----"
@@ -166,6 +198,8 @@ EOLS = ("\n", "\r\n")
 REFUSED_KINDS = ("trailing-newline", "empty-line", "unindented-continuation")
 REFUSED_KEYS = ("new", "existing", "later")
 REFUSED_VIA = ("setitem", "update")
+# dump(fd, encoding=...): codecs that encode piecewise without a byte order mark; None = not given
+DUMP_CODECS = ["ascii", "iso-8859-1", "iso-8859-15", "cp1252", "utf-8", "utf-16-le", "utf-16-be", "utf-32-be"]
 _header_re = re.compile(r"^[A-Za-z]+: \S.*$")
 _b64_re = re.compile(r"^[A-Za-z0-9+/=]+$")
 
@@ -198,6 +232,105 @@ def valid_refused(r):
     return (isinstance(r, dict) and _is_int(r.get("at"), 0, 10 ** 6) and r.get("key") in REFUSED_KEYS
             and _is_int(r.get("index"), 0, 10 ** 6) and r.get("kind") in REFUSED_KINDS
             and r.get("via", "setitem") in REFUSED_VIA)
+
+
+def valid_dump(s):
+    return (isinstance(s, dict) and (s.get("encoding") is None or s.get("encoding") in DUMP_CODECS)
+            and isinstance(s.get("text_mode", False), bool)
+            and (s.get("fail_at") is None or _is_int(s.get("fail_at"), 0, 64)))
+
+
+class WriteFailed(OSError):
+    """What the caller's file object raises when it cannot take a write()."""
+
+
+class CollectingFd(object):
+    """A caller's file object: keeps what it is given; its k-th write() (from 0) may fail."""
+
+    def __init__(self, fail_at=None):
+        self.parts, self.fail_at = [], fail_at
+
+    def write(self, data):
+        if self.fail_at is not None and len(self.parts) >= self.fail_at:
+            self.fail_at = 0               # and it stays broken
+            raise WriteFailed(28, "No space left on device")
+        self.parts.append(data)
+        return len(data)
+
+    def flush(self):
+        pass
+
+
+def dump_with_parameters(d, spec, text):
+    """One dump(fd, ...) as the case asks for: 'written' | 'refused' | 'write-failed'.
+
+    ``text`` is what dump() gave before.  A call that returns must have written exactly that
+    text (in the codec asked for); UnicodeEncodeError is the documented answer when the codec
+    cannot express it, and only then.
+    """
+    codec, text_mode = spec.get("encoding"), bool(spec.get("text_mode", False))
+    kw = {}
+    if codec is not None:
+        kw["encoding"] = codec
+    if text_mode:
+        kw["text_mode"] = True
+    call = "dump(fd%s)" % "".join(", %s=%r" % kv for kv in sorted(kw.items()))
+    effective = codec or "utf-8"           # the paragraph was made by Deb822(): UTF-8
+    try:
+        text.encode(effective)
+        expressible = True
+    except UnicodeEncodeError:
+        expressible = False
+    fd = CollectingFd(spec.get("fail_at"))
+    try:
+        ret = d.dump(fd, **kw)
+    except WriteFailed:
+        return "write-failed"              # the fd's own error comes back to the caller
+    except UnicodeEncodeError as e:
+        if text_mode or expressible:
+            raise Violation("dump-parameters/UnicodeEncodeError-for-expressible-text",
+                            "%s of the paragraph that dumps as %s raised %s" % (call, short(text, 300), e))
+        return "refused"
+    want_type = str if text_mode else bytes
+    if ret is not None or not all(isinstance(x, want_type) for x in fd.parts):
+        raise Violation("dump-parameters/wrong-kind-of-data", "%s returned %s and wrote %s"
+                        % (call, short(ret), short(fd.parts, 300)))
+    if text_mode:
+        written = "".join(fd.parts)
+    else:
+        try:
+            written = b"".join(fd.parts).decode(effective)
+        except UnicodeDecodeError:
+            written = None
+    if written != text:
+        raise Violation("dump-parameters/written-text-differs",
+                        "%s wrote %s, which is %s; dump() gave %s%s"
+                        % (call, short(fd.parts, 300), short(written, 300), short(text, 300),
+                           "" if expressible or text_mode else " (the codec cannot express it: UnicodeEncodeError is documented)"))
+    return "written"
+
+
+def dumped_every_way(d, text, sig, when):
+    """Normal use: every way of dumping the paragraph must give ``text`` (in UTF-8 where it is bytes)."""
+    got = {}
+    try:
+        got["dump()"] = d.dump()
+        got["str(p)"] = str(d)
+        tio, bio = io.StringIO(), io.BytesIO()
+        d.dump(tio, text_mode=True)
+        got["dump(fd, text_mode=True)"] = tio.getvalue()
+        d.dump(bio)
+        got["dump(fd)"] = bio.getvalue()
+        got["bytes(p)"] = bytes(d)
+    except UnicodeError as e:
+        raise Violation(sig, "%s: %s raised after %s had worked; expected text %s"
+                        % (when, short(repr(e), 200), short(sorted(got)), short(text, 300)))
+    raw = text.encode("utf-8")
+    for how in ("dump()", "str(p)", "dump(fd, text_mode=True)", "dump(fd)", "bytes(p)"):
+        if got[how] != (raw if how in ("dump(fd)", "bytes(p)") else text):
+            raise Violation(sig, "%s: %s gives %s, expected %s of %s"
+                            % (when, how, short(got[how], 300),
+                               "the UTF-8 bytes" if how in ("dump(fd)", "bytes(p)") else "the text", short(text, 300)))
 
 
 def refused_plan(fields, refused, ordered=True):
@@ -275,6 +408,9 @@ def valid_case(case):
             return False
         rs = p.get("refused", [])
         if not (isinstance(rs, list) and len(rs) <= 16 and all(valid_refused(r) for r in rs)):
+            return False
+        ds = p.get("dumps", [])
+        if not (isinstance(ds, list) and len(ds) <= 16 and all(valid_dump(x) for x in ds)):
             return False
     lay = case["layout"]
     if not (_is_int(lay.get("lead"), 0, 5) and _is_int(lay.get("trail"), 0, 5)
@@ -616,6 +752,7 @@ def check(case):
 
     para_lines = []
     not_refused = 0
+    dump_outcomes = []
     for p in paras:
         d, _ = build_paragraph(p["fields"])
         text = d.dump()
@@ -638,12 +775,15 @@ def check(case):
                                     % (short(p["fields"], 300), short(plan, 300), short(text2, 300),
                                        short(_items(d2), 300), short(text, 300)))
                 d = d2                       # normal use goes on with that object
-        tio, bio = io.StringIO(), io.BytesIO()
-        d.dump(tio, text_mode=True)
-        d.dump(bio)
-        if tio.getvalue() != text or bio.getvalue() != text.encode("utf-8"):
-            raise Violation("dump-fd-differs", "dump() gives %s, text fd %s, binary fd %s"
-                            % (short(text), short(tio.getvalue()), short(bio.getvalue())))
+        # Dumps with parameters, made by a caller who catches the documented UnicodeEncodeError (and
+        # the OSError of his own fd) and carries on with the same object.
+        for ds in p.get("dumps", []):
+            dump_outcomes.append((ds, dump_with_parameters(d, ds, text)))
+        if p.get("dumps"):
+            dumped_every_way(d, text, "dump-with-parameters-leaves-trace",
+                             "after the calls %s on the paragraph" % short(p["dumps"], 300))
+        else:
+            dumped_every_way(d, text, "dump-fd-differs", "freshly built paragraph")
         # What dump() writes is a function of the paragraph's current fields, whatever was dumped
         # before: take the first field out, dump and re-read, put it back in place, dump again.
         if len(p["fields"]) >= 2:
@@ -655,11 +795,13 @@ def check(case):
             if got != want:
                 raise Violation("dump-after-edit", "after del d[%r] the dump %s reads %s, expected %s"
                                 % (n0, short(d.dump()), short(got), short(want)))
+            dumped_every_way(d, d.dump(), "dump-after-edit", "after del d[%r]" % n0)
             d[n0] = v0
             d.order_first(n0)
             if d.dump() != text:
                 raise Violation("dump-after-edit", "field %r removed, re-added and moved first: dump %s, "
                                 "before %s" % (n0, short(d.dump()), short(text)))
+            dumped_every_way(d, text, "dump-after-edit", "field %r removed, re-added and moved first" % n0)
         ls = text.split("\n")
         if ls and ls[-1] == "":
             ls.pop()
@@ -778,6 +920,13 @@ def check(case):
             labels.append("refused-assignment:%s-key/%s/%s" % (step[4], r["kind"], step[3]))
     if not_refused:
         labels.append("unrefused-attempt-not-judged")
+    for ds, outcome in dump_outcomes:
+        labels.append("dump-parameters:%s/%s/%s" % (
+            "text_mode" if ds.get("text_mode") else "binary", ds.get("encoding") or "encoding-not-given", outcome))
+    if len(dump_outcomes) > 1:
+        labels.append("dump-parameters:several-calls")
+    if any(o != "written" for _, o in dump_outcomes):
+        labels.append("dump-error-path-then-normal-use")
     gap_ws = [l for l in full if l != "" and l.strip(G.BLANKS) == ""]
     if gap_ws:
         labels.append("whitespace-only-gap-line")
@@ -909,6 +1058,37 @@ def enum_refused():
     return gen
 
 
+DUMP_VALUES = ["plain text", "caf\xe9 na\xefve", "5 \u20ac", "\u6f22 text", "\U0001d4b3 text"]
+
+
+def enum_dumps():
+    """One or two dumps with parameters on a three-field paragraph, then normal use; the value
+    that a codec may be unable to express is in the middle field (so a refused dump has written
+    something before)."""
+    def fields(v):
+        return [["Package", ["demo", []]], ["Description", [v, [" more " + v, "\t."]]], ["Tail", ["t", []]]]
+    other = {"fields": [["Other", ["\xe9\u20ac\u6f22", [" x"]]], ["End", ["", []]]], "comments": [], "armor": None}
+    encodings = DUMP_CODECS + [None]
+
+    def gen():
+        for v in DUMP_VALUES:
+            for enc in encodings:
+                for text_mode in (False, True):
+                    for fail_at in (None, 0, 2):
+                        yield {"paras": [{"fields": fields(v), "comments": [], "armor": None,
+                                          "dumps": [{"encoding": enc, "text_mode": text_mode, "fail_at": fail_at}]}],
+                               "layout": PLAIN_LAYOUT}
+        for v in DUMP_VALUES[1:3]:
+            for e1 in encodings:
+                for e2 in encodings:
+                    yield {"paras": [{"fields": fields(v), "comments": [], "armor": None,
+                                      "dumps": [{"encoding": e1, "text_mode": False, "fail_at": None},
+                                                {"encoding": e2, "text_mode": False, "fail_at": None}]},
+                                     other],
+                           "layout": PLAIN_LAYOUT}
+    return gen
+
+
 WS3 = ["", " ", "\t"]
 
 
@@ -968,6 +1148,12 @@ refused_spec = st.fixed_dictionaries({
     "kind": st.sampled_from(REFUSED_KINDS), "via": st.sampled_from(["setitem", "setitem", "update"])})
 
 
+dump_spec = st.fixed_dictionaries({
+    "encoding": st.sampled_from(DUMP_CODECS + ["ascii", "iso-8859-1", None, None]),
+    "text_mode": st.sampled_from([False, False, False, True]),
+    "fail_at": st.sampled_from([None, None, None, None, None, None, 0, 1, 2])})
+
+
 @st.composite
 def gen_para(draw, armor_p):
     fields = draw(G.fields(1, 5))
@@ -982,7 +1168,8 @@ def gen_para(draw, armor_p):
         comments = [list(c) for c in comments]
     armor = draw(armor_spec) if draw(st.sampled_from(armor_p)) else None
     refused = draw(st.one_of(st.just([]), st.just([]), st.lists(refused_spec, min_size=1, max_size=3)))
-    return {"fields": fields, "comments": comments, "armor": armor, "refused": refused}
+    dumps = draw(st.one_of(st.just([]), st.just([]), st.lists(dump_spec, min_size=1, max_size=3)))
+    return {"fields": fields, "comments": comments, "armor": armor, "refused": refused, "dumps": dumps}
 
 
 free_block = st.one_of(st.just([]), st.just([]), st.lists(G.comment_text, min_size=1, max_size=2))
@@ -1020,11 +1207,13 @@ def sources(tier):
                 Enum("blank-line-gaps", enum_gaps(), _EXH_GAPS),
                 Enum("line-terminators", enum_terminators(), _EXH_EOL),
                 Enum("refused-assignments", enum_refused(), _EXH_REFUSED),
+                Enum("dumps-with-parameters", enum_dumps(), _EXH_DUMPS),
                 Enum("aligned-big-documents", enum_aligned("quick"), _EXH_BIG),
                 Hyp("documents", gen_case(), 600, shards=10)]
     return [Enum("boundary-values", enum_cases(), _EXH),
             Enum("blank-line-gaps", enum_gaps(), _EXH_GAPS),
             Enum("line-terminators", enum_terminators(), _EXH_EOL),
             Enum("refused-assignments", enum_refused(), _EXH_REFUSED),
+            Enum("dumps-with-parameters", enum_dumps(), _EXH_DUMPS),
             Enum("aligned-big-documents", enum_aligned("thorough"), _EXH_BIG_T),
             Hyp("documents", gen_case(), 4000, shards=16)]
